@@ -393,7 +393,7 @@ def eq_zero_rule(ck, ix):
     is_zero = atom_is(fn, *[f"eq(_Q.{a}, 0, True)" for a in MAG])
     n_tests = len([c for a in MAG for c in calls_matching(fn, f"eq(_Q.{a}, 0, True)") if not shape.dead(c, fn)])
     ck.floor("G-TAG", n_tests, 1, "zero tests on a quantity's magnitude in PlainQuantity.__eq__ (the both-zero shortcut)")
-    n = 0
+    n = n_ret = 0
     for st in walk_local(fn):
         if not isinstance(st, (ast.Return, ast.Raise, ast.Assign, ast.AugAssign, ast.AnnAssign, ast.Expr)) or shape.dead(st, fn):
             continue
@@ -404,11 +404,26 @@ def eq_zero_rule(ck, ix):
         ck.check(okm, "G-TAG", "PlainQuantity.__eq__|both-zero-shortcut-requires-multiplicative", fi.loc(st),
                  "the both-zero shortcut only applies when both quantities are multiplicative",
                  "the both-zero shortcut answers by dimensionality although an operand may carry an offset/log unit (0 degC == 0 kelvin would be True)")
-        val = shape.resolve(st.value, fn) if isinstance(st, ast.Return) and st.value is not None else None
-        okd = val is not None and any(isinstance(c, ast.Compare) and (shape.match("self.dimensionality == other.dimensionality", c) is not None or shape.match("other.dimensionality == self.dimensionality", c) is not None)
-                                      for c in ast.walk(val))
+        # the answer given there is the dimensionality comparison: every governed `return` derives from it; a governed
+        # assignment is a temporary of such a return (a spliced helper) unless an ungoverned return reads it
+        is_dim_eq = lambda v: v is not None and any(isinstance(c, ast.Compare) and (shape.match("self.dimensionality == other.dimensionality", c) is not None or shape.match("other.dimensionality == self.dimensionality", c) is not None)
+                                                    for c in ast.walk(shape.resolve(v, fn)))
+        if isinstance(st, ast.Return):
+            n_ret += 1
+            okd = is_dim_eq(st.value)
+        elif isinstance(st, (ast.Assign, ast.AnnAssign)) and getattr(st, "value", None) is not None:
+            tnames = {x.id for t_ in (st.targets if isinstance(st, ast.Assign) else [st.target]) for x in ast.walk(t_) if isinstance(x, ast.Name)}
+            attr_store = any(not isinstance(t_, (ast.Name, ast.Tuple, ast.List)) for t_ in (st.targets if isinstance(st, ast.Assign) else [st.target]))
+            def from_here(x):
+                d = shape.dominating_def(x, fn)          # None = unknown: assume it may be this statement
+                return d is None or d is st.value or (isinstance(d, ast.Subscript) and d.value is st.value)
+            escapes = any(not known(r, fn, is_zero, True) and any(isinstance(x, ast.Name) and x.id in tnames and from_here(x) for x in ast.walk(r)) for r in shape.returns_of(fn))
+            okd = is_dim_eq(st.value) or (not attr_store and not escapes)
+        else:
+            okd = False
         ck.check(okd, "G-PROV", "PlainQuantity.__eq__|both-zero-answer-is-dimensionality-equality", fi.loc(st),
                  "two zeros are equal iff the dimensionalities are", f"`{norm(st).splitlines()[0]}` is not the dimensionality comparison")
+    ck.check(n == 0 or n_ret > 0, "G-PROV", "PlainQuantity.__eq__|both-zero-answer-is-dimensionality-equality", fi.loc(), "the shortcut returns its answer", "the both-zero shortcut no longer returns the dimensionality comparison")
     ck.floor("G-TAG", n, 1, "statements of PlainQuantity.__eq__ governed by a zero test of the magnitudes")
 
 
